@@ -28,7 +28,7 @@ COPIES = {
     "hsdp": ("distributed_shampoo/utils/shampoo_hsdp_distributor.py", "distributed_shampoo.utils.shampoo_hsdp_distributor", "HSDPDistributor", "_dist_group_size"),
     "hybrid": ("distributed_shampoo/utils/shampoo_hybrid_shard_distributor.py", "distributed_shampoo.utils.shampoo_hybrid_shard_distributor", "HybridShardDistributor", "_dist_group_size"),
 }
-FUNCS = [(f, f"{c}.{m}") for f, _, c, _ in COPIES.values() for m in ("_distribute_buffer_sizes", "_split_local_dist_buffers", "_construct_distributed_buffers")]
+FUNCS = [(f, f"{c}.{m}") for f, _, c, _ in COPIES.values() for m in ("_distribute_buffer_sizes", "_split_local_dist_buffers", "_construct_distributed_buffers", "_allocate_zeros_distributed_tensor")]
 TRUSTED = [
     "ASSUMED contracts: heapq.heappop returns and removes the lexicographically least element, heappush inserts, heapify keeps the multiset (validated natively against the real heapq); sorted(key=, reverse=True) is CPython's (the real function is executed on symbolic keys)",
     "ASSUMED contracts: torch.split(buffer, sizes) returns consecutive views with the given lengths (requires sum == length); Tensor.split(k)[0] is the first min(k, len) bytes; view(dtype) requires byte offset and length multiples of the element size; views share storage",
@@ -109,6 +109,7 @@ def cases(tier):
             for G in (1, 2):
                 cs.append(f"buffers/{copy}/n{n}/G{G}")
         cs.append(f"structure/{copy}")
+        cs.append(f"alloc/{copy}")
     return cs
 
 
@@ -448,7 +449,90 @@ def _buffers_case(case):
     return out
 
 
+def _alloc_case(case):
+    """State placement: the device mesh a block's optimizer state is replicated on consists exactly of the ranks whose rank WITHIN
+    their communication group equals the block's owner (so within a group the state lives on exactly one rank), and the 2-D mesh
+    requested is the one the constructor already created.  Real `_allocate_zeros_distributed_tensor`, torch.distributed stubbed."""
+    import torch
+    copy = case.split("/")[1]
+    mod, C, attr = _cls(copy)
+    func = f"{C.__name__}._allocate_zeros_distributed_tensor"
+    out = []
+    configs = [([3, 11, 19, 27, 35, 43], 3), ([0, 1, 2, 3], 2), ([0, 1, 2, 3], 4), ([5, 7], 1), ([0, 4, 8, 12, 16, 20, 24, 28], 4)]
+    for ranks, gsize in configs:
+        for owner in range(gsize):
+            obj = object.__new__(C)
+            setattr(obj, attr, gsize)
+            log = {}
+
+            if copy == "ddp":
+                world = len(ranks)
+                obj._global_size = world
+
+                def gdm(device_type, mesh, mesh_dim_names=None):
+                    log["mesh"] = tuple(mesh)
+                    return ("mesh", tuple(mesh))
+
+                def dz(size, dtype=None, device_mesh=None, placements=None):
+                    log["state_mesh"] = device_mesh
+                    return "dt"
+
+                with rebind([(mod, "get_device_mesh", gdm), (mod, "dtensor_zeros", dz)]):
+                    obj._allocate_zeros_distributed_tensor((2, 2), torch.float32, torch.device("cpu"), group_source_rank=owner)
+                got = set(log["state_mesh"][1])
+                want = {r for r in range(world) if r % gsize == owner}
+                ok = got == want
+                txt = f"world {world}, group size {gsize}, owner {owner}: state mesh {sorted(got)}, ranks with that group rank {sorted(want)}"
+            else:
+                class Mesh:
+                    @staticmethod
+                    def get_group(d):
+                        return "replicate-group"
+
+                if copy == "hsdp":
+                    obj._hsdp_device_mesh = Mesh()
+                else:
+                    obj._hybrid_shard_device_mesh = Mesh()
+
+                class Dist:
+                    @staticmethod
+                    def get_process_group_ranks(g):
+                        return list(ranks)
+
+                class MR:
+                    @staticmethod
+                    def _get_all_submeshes(mesh2d, dim):
+                        rows = mesh2d[1]
+                        return [tuple(r[j] for r in rows) for j in range(len(rows[0]))] if dim == "replicate" else list(rows)
+
+                def gdm(device_type, mesh, mesh_dim_names=None):
+                    log["mesh"] = tuple(tuple(r) for r in mesh)
+                    log["names"] = mesh_dim_names
+                    return ("mesh", log["mesh"])
+
+                def dz(size, dtype=None, device_mesh=None, placements=None):
+                    log["state_mesh"] = device_mesh
+                    return "dt"
+
+                with rebind([(mod, "dist", Dist), (mod, "get_device_mesh", gdm), (mod, "dtensor_zeros", dz), (mod, "_mesh_resources", MR)]):
+                    try:
+                        obj._allocate_zeros_distributed_tensor((2, 2), torch.float32, torch.device("cpu"), group_source_rank=owner)
+                    except BaseException as e:  # noqa
+                        log["err"] = f"{type(e).__name__}: {e}"
+                want_mesh = tuple(tuple(ranks[i:i + gsize]) for i in range(0, len(ranks), gsize))  # what the constructor created (cache hit)
+                want = {row[owner] for row in want_mesh}
+                got = set(log.get("state_mesh") or ())
+                ok = "err" not in log and log.get("mesh") == want_mesh and got == want and log.get("names") == ("replicate", "shard")
+                txt = f"replicate ranks {ranks}, comms group size {gsize}, owner {owner}: 2-D mesh {log.get('mesh')}, state mesh {sorted(got)}, expected {sorted(want)} {log.get('err', '')}"
+            out.append(result(f"{func}/state-lives-exactly-on-the-ranks-with-the-owner's-group-rank[{case}/{len(ranks)}x{gsize}/o{owner}]", func,
+                              "discharged" if ok else "violated", backend="concrete-execution (torch.distributed stubbed)", case=case, text=txt,
+                              replay=dict(kind="alloc", copy=copy)))
+    return out
+
+
 def run_case(case, tier, seed):
+    if case.startswith("alloc/"):
+        return _alloc_case(case)
     if case.startswith("assign/"):
         return _assign_case(case)
     if case.startswith("loopstep/"):
@@ -650,6 +734,10 @@ def replay_file(doc):
     if rp.get("kind") == "native_assign":
         bad = native_assign_check(rp["copy"], tuple(rp["sizes"]), rp["G"])
         return bool(bad), f"sizes {rp['sizes']} G={rp['G']}: {bad}"
+    if rp.get("kind") == "alloc":
+        res = _alloc_case(f"alloc/{rp['copy']}")
+        badr = [x for x in res if x["status"] != "discharged"]
+        return bool(badr), badr[0]["text"] if badr else "state meshes are as specified"
     if rp.get("kind") == "placement":
         bad = native_state_placement(rp["world"], rp["group"])
         return bool(bad), f"{rp}: {bad}"
